@@ -10,7 +10,7 @@ for p in ${@:-/verif/benign/*.patch}; do
   ( cd $wt && git checkout -q -- . && git clean -fdq -e .verif && git apply $p ) || { echo "NOAPPLY $p"; bad=$((bad+1)); continue; }
   if ! (cd $wt && go build ./... >/dev/null 2>&1 && GOOS=darwin go build ./... >/dev/null 2>&1 && go vet -tags race . >/dev/null 2>&1); then echo "NOBUILD $p"; bad=$((bad+1)); continue; fi
   out=$($NPLINT -prop all -tier quick -repo $wt -verif $wt/.verif 2>&1); code=$?
-  if [ $code -eq 0 ]; then echo "QUIET   $p"; else echo "ALARM   $p (exit $code)"; echo "$out" | grep -E '^(VIOLATED |BROKEN|ANCHOR)' | cut -c1-400 | sed 's/^/        /'; bad=$((bad+1)); fi
+  if [ $code -eq 0 ]; then echo "QUIET   $(basename $p)"; else echo "ALARM   $(basename $p) (exit $code)"; echo "$out" | grep -E '^(VIOLATED |BROKEN|ANCHOR)' | cut -c1-400 | sed 's/^/        /'; bad=$((bad+1)); fi
 done
 git -C /repo worktree remove --force $wt >/dev/null 2>&1
 echo "benignall: false alarms=$bad"
